@@ -251,6 +251,13 @@ class Evaluator:
                         raise Unsupported("downcast to wrong variant")
                 else:
                     raise Unsupported("downcast of %r" % (val,))
+            elif isinstance(e, list) and e[0] == "[k]":
+                if isinstance(val, BufView):
+                    val = val.get(e[1])
+                elif isinstance(val, (tuple, list)) and 0 <= e[1] < len(val):
+                    val = val[e[1]]
+                else:
+                    raise Unsupported("constant index %r of %r" % (e[1], val))
             elif isinstance(e, list) and e[0] == "[]":
                 i = fr.env.get(e[1], UNKNOWN)
                 if isinstance(val, BufView) and isinstance(i, int):
@@ -270,8 +277,32 @@ class Evaluator:
             return v
         return val
 
+    def _concrete(self, fr, proj):
+        """index projections name a local of the CURRENT frame: fix their value before the projection leaves the frame"""
+        out = []
+        for e in proj:
+            if isinstance(e, (list, tuple)) and len(e) == 2 and e[0] == "[]":
+                i = fr.env.get(e[1], UNKNOWN)
+                if not isinstance(i, int):
+                    raise Unsupported("reference to an element at an unknown index")
+                out.append(["[k]", i])
+            else:
+                out.append(e)
+        return out
+
     def place_ref(self, fr, p):
         """a reference value to place p"""
+        if any(isinstance(e, (list, tuple)) and len(e) == 2 and e[0] == "[]" for e in p[1:]):
+            p = [p[0]] + self._concrete(fr, p[1:])
+            # a reference to an element of a modelled buffer is an element reference
+            try:
+                base = self.read_place(fr, p[:-1]) if isinstance(p[-1], list) and p[-1][0] == "[k]" else None
+            except Unsupported:
+                base = None
+            if isinstance(base, BufView):
+                if not 0 <= p[-1][1] < base.n:
+                    raise Unsupported("element reference out of range")
+                return ElemRef(base.buf, base.off + p[-1][1])
         # reference to something below an external root?
         base = fr.env.get(p[0], UNKNOWN)
         if p[1:] and p[1] == "*" and isinstance(base, Ref):
@@ -306,6 +337,9 @@ class Evaluator:
             if isinstance(base, ElemRef) and len(p) == 2:
                 base.buf[base.i] = val
                 return
+            if isinstance(base, BufView) and len(p) == 3 and isinstance(p[2], list) and p[2][0] == "[k]":
+                base.set(p[2][1], val)
+                return
             if isinstance(base, BufView) and len(p) == 3 and isinstance(p[2], list) and p[2][0] == "[]":
                 i = fr.env.get(p[2][1], UNKNOWN)
                 if not isinstance(i, int):
@@ -314,12 +348,12 @@ class Evaluator:
                 return
             if isinstance(base, Ref) and base.key[0] == "local":
                 f2 = self.frames[base.key[1]]
-                self.write_place(f2, [base.key[2]] + [list(x) if isinstance(x, tuple) else x for x in base.key[3:]] + p[2:], val)
+                self.write_place(f2, [base.key[2]] + [list(x) if isinstance(x, tuple) else x for x in base.key[3:]] + self._concrete(fr, p[2:]), val)
                 return
             raise Unsupported("store through external reference")
         cur = fr.env.get(p[0], UNKNOWN)
-        if isinstance(p[1], list) and p[1][0] == "[]" and len(p) == 2:
-            i = fr.env.get(p[1][1], UNKNOWN)
+        if isinstance(p[1], list) and p[1][0] in ("[]", "[k]") and len(p) == 2:
+            i = fr.env.get(p[1][1], UNKNOWN) if p[1][0] == "[]" else p[1][1]
             if isinstance(cur, BufView) and isinstance(i, int):
                 cur.set(i, val)
                 return
